@@ -19,6 +19,9 @@ import (
 	"mellium.im/xmpp"
 	"mellium.im/xmpp/jid"
 	"mellium.im/xmpp/stream"
+	xmppws "mellium.im/xmpp/websocket"
+
+	"golang.org/x/net/websocket"
 
 	"verifharness/common"
 )
@@ -39,7 +42,8 @@ type item struct {
 //	       A<from> (no 'to') or A<from>.<loc>.<dom>.<res>; see hdrFromKinds, addr
 //	L…     features list, items id.req.ok joined by '+'
 //	P F    <proceed/> <failure/> (TLS namespace)
-//	E      <stream:error/>
+//	E      <stream:error/> (relies on the prefix the stream header declared)
+//	D      <stream:error xmlns:stream='…'/>: declares the stream namespace itself
 //	G      another element in the TLS namespace
 //	O      an element in a foreign namespace
 //	W      white space
@@ -305,7 +309,7 @@ func parseUnit(s string) (unit, error) {
 			u.items = append(u.items, item{id: id, req: p[1] == "1", ok: p[2] == "1"})
 		}
 		return u, nil
-	case 'P', 'F', 'E', 'G', 'O', 'W', 'M':
+	case 'P', 'F', 'E', 'D', 'G', 'O', 'W', 'M':
 		if len(s) == 1 {
 			return unit{kind: s[0]}, nil
 		}
@@ -320,7 +324,7 @@ func parseScenario(f []string) (sc scenario, err error) {
 		return sc, fmt.Errorf("short run line")
 	}
 	sc.tee, _ = strconv.Atoi(f[0])
-	sc.ck = sc.tee / 4 % 4 // the field carries tee + 4*kind
+	sc.ck = sc.tee / 4 % len(connKinds) // the field carries tee + 4*kind
 	sc.tee %= 4
 	sc.explicit = f[1] == "1"
 	sc.domain, _ = strconv.Atoi(f[2])
@@ -409,6 +413,58 @@ func (u unit) bytes(sc *scenario) []byte {
 	}
 	dom := domains[sc.remote] // the peer is the remote entity: its headers come from there
 	own := sc.originStr()
+	if sc.ws() {
+		// RFC 7395 framing: the header is an <open/> document, every other top-level element
+		// declares what it needs itself
+		const open = "<open xmlns='urn:ietf:params:xml:ns:xmpp-framing'"
+		switch u.kind {
+		case 'H':
+			if u.ok {
+				switch u.variant % 3 {
+				case 0:
+					return []byte(fmt.Sprintf(`%s version='1.0' id='sid' from='%s' to='%s'/>`, open, dom, own))
+				case 1:
+					return []byte(fmt.Sprintf(`%s version='1.0' id='sid' from='%s'></open>`, open, dom))
+				default:
+					return []byte(fmt.Sprintf(`<open from='%s' id='x' version='1.0' xmlns="urn:ietf:params:xml:ns:xmpp-framing"/>`, dom))
+				}
+			}
+			switch u.variant % 4 {
+			case 0: // wrong origin
+				return []byte(fmt.Sprintf(`%s version='1.0' id='sid' from='evil.example' to='%s'/>`, open, own))
+			case 1: // no stream id
+				return []byte(fmt.Sprintf(`%s version='1.0' from='%s'/>`, open, dom))
+			case 2: // unsupported version
+				return []byte(fmt.Sprintf(`%s version='0.9' id='sid' from='%s'/>`, open, dom))
+			default: // the header of the other framing
+				return []byte(fmt.Sprintf(`<stream:stream xmlns='%s' xmlns:stream='http://etherx.jabber.org/streams' version='1.0' id='sid' from='%s'>`, ns, dom))
+			}
+		case 'A':
+			var b strings.Builder
+			b.WriteString(open + " version='1.0' id='sid'")
+			switch u.from {
+			case 1:
+				fmt.Fprintf(&b, ` from='%s'`, dom)
+			case 2:
+				fmt.Fprintf(&b, ` from='%s'`, domains[(sc.remote+1)%4])
+			case 3:
+				b.WriteString(` from='evil.example'`)
+			}
+			if u.hasTo {
+				fmt.Fprintf(&b, ` to='%s'`, sc.addrStr(u.to))
+			}
+			b.WriteString("/>")
+			return []byte(b.String())
+		case 'L':
+			tcp := *sc
+			tcp.ck = 0
+			b := u.bytes(&tcp)
+			return append([]byte("<stream:features xmlns:stream='http://etherx.jabber.org/streams'>"), b[len("<stream:features>"):]...)
+		case 'E':
+			// (there is no header element that could have declared the prefix)
+			u.kind = 'D'
+		}
+	}
 	switch u.kind {
 	case 'H':
 		if u.ok {
@@ -497,6 +553,8 @@ func (u unit) bytes(sc *scenario) []byte {
 		return []byte("<failure xmlns='" + nsTLS + "'/>")
 	case 'E':
 		return []byte("<stream:error><host-unknown xmlns='urn:ietf:params:xml:ns:xmpp-streams'/></stream:error>")
+	case 'D':
+		return []byte("<stream:error xmlns:stream='http://etherx.jabber.org/streams'><host-unknown xmlns='urn:ietf:params:xml:ns:xmpp-streams'/></stream:error>")
 	case 'G':
 		return []byte("<continue xmlns='" + nsTLS + "'/>")
 	case 'O':
@@ -621,7 +679,9 @@ func classify(b []byte) []string {
 		switch {
 		case name == "stream:stream":
 			ev = append(ev, "h")
-		case name == "/stream:stream":
+		case name == "open" && strings.Contains(tag, "urn:ietf:params:xml:ns:xmpp-framing"):
+			ev = append(ev, "h") // the header of the WebSocket framing
+		case name == "/stream:stream", name == "close" && strings.Contains(tag, "urn:ietf:params:xml:ns:xmpp-framing"):
 			ev = append(ev, "c")
 		case name == "starttls" && (strings.Contains(tag, "'"+nsTLS+"'") || strings.Contains(tag, `"`+nsTLS+`"`)) && strings.HasSuffix(tag, "/"):
 			ev = append(ev, "s")
@@ -678,7 +738,46 @@ func (c *ctx) tlsConfig(explicit bool) *tls.Config {
 //	2  a clear-text net.Conn wrapper that has a ConnectionState() method (a byte counter, a
 //	   logging connection): it satisfies the library's tlsConn interface and is not TLS
 //	3  a real *tls.Conn (client side, handshake not yet performed): already secure
-var connKinds = []string{"net.Conn", "io.ReadWriter", "net.Conn+ConnectionState()", "*tls.Conn"}
+//
+// WebSocket framing (the negotiator of the websocket package; the carrier is clear text):
+//
+//	4  a net.Conn
+//	5  a plain io.ReadWriter
+//	6  a client *websocket.Conn (x/net/websocket, after a real opening handshake) whose location
+//	   is a ws: URL and whose origin is an http: URL
+//	7  the same with an https: origin — the origin says nothing about the transport
+//	8  the same with a wss: origin
+//
+// On 6 and 7 the session is created with websocket.NewSession (which decides itself whether the
+// session starts Secure) when the scenario has what that function fixes: no tee, initial state
+// 0, remote domain = own domain; otherwise with xmpp.NewSession and websocket.Negotiator.
+var connKinds = []string{"net.Conn", "io.ReadWriter", "net.Conn+ConnectionState()", "*tls.Conn",
+	"ws-framing/net.Conn", "ws-framing/io.ReadWriter", "ws-framing/*websocket.Conn(origin http, location ws)", "ws-framing/*websocket.Conn(origin https, location ws)",
+	"ws-framing/*websocket.Conn(origin wss, location ws)"}
+
+// ws: the session uses the WebSocket framing
+func (sc *scenario) ws() bool { return sc.ck >= 4 }
+
+// wsConn: the session is created on a *websocket.Conn
+func (sc *scenario) wsConn() bool { return sc.ck >= 6 }
+
+// wsEntry: the session is created by websocket.NewSession itself
+func (sc *scenario) wsEntry() bool {
+	return sc.wsConn() && sc.tee == 0 && sc.state0 == 0 && sc.remote == sc.domain
+}
+
+var wsOrigins = map[int]string{6: "http://", 7: "https://", 8: "wss://"}
+
+// dialWS performs the opening handshake of a client *websocket.Conn on the wire (whose other end
+// answers it) for the given origin and location URLs.
+func dialWS(w *wire, origin, location string) (*websocket.Conn, error) {
+	cfg, err := websocket.NewConfig(location, origin)
+	if err != nil {
+		return nil, err
+	}
+	cfg.Protocol = []string{"xmpp"}
+	return websocket.NewClient(cfg, clientConn{w})
+}
 
 type plainRW struct{ c clientConn }
 
@@ -720,6 +819,14 @@ func (c *ctx) conn(sc scenario, w *wire) io.ReadWriter {
 		return &stateConn{Conn: base}
 	case 3:
 		return tls.Client(base, &tls.Config{ServerName: domains[sc.domain], RootCAs: c.pki.pool, MinVersion: tls.VersionTLS12})
+	case 5:
+		return plainRW{base}
+	case 6, 7, 8:
+		wc, err := dialWS(w, wsOrigins[sc.ck]+domains[sc.domain], "ws://"+domains[sc.remote]+"/xmpp-websocket")
+		if err != nil {
+			panic("c02: WebSocket opening handshake on the scripted wire: " + err.Error())
+		}
+		return wc
 	}
 	return base
 }
@@ -804,6 +911,9 @@ func (c *ctx) exec1(sc scenario, base *xmpp.StreamFeature, shared *sharedNeg) (r
 	}
 	prevW = false
 	w := newWire(clear)
+	if sc.wsConn() {
+		w = newWSWire(clear)
+	}
 	peer := &tlsPeer{w: w, cfg: c.pki.server}
 	var items []pitem
 	for _, p := range sc.prot {
@@ -907,7 +1017,7 @@ func (c *ctx) exec1(sc scenario, base *xmpp.StreamFeature, shared *sharedNeg) (r
 		features = append(features, f)
 	}
 	teeIn, teeOut := &common.SafeBuffer{}, &common.SafeBuffer{}
-	neg := xmpp.NewNegotiator(func(*xmpp.Session, *xmpp.StreamConfig) xmpp.StreamConfig {
+	cfgFn := func(*xmpp.Session, *xmpp.StreamConfig) xmpp.StreamConfig {
 		cfg := xmpp.StreamConfig{Features: features}
 		if sc.tee&1 != 0 {
 			cfg.TeeIn = teeIn
@@ -916,7 +1026,11 @@ func (c *ctx) exec1(sc scenario, base *xmpp.StreamFeature, shared *sharedNeg) (r
 			cfg.TeeOut = teeOut
 		}
 		return cfg
-	})
+	}
+	neg := xmpp.NewNegotiator(cfgFn)
+	if sc.ws() {
+		neg = xmppws.Negotiator(cfgFn)
+	}
 	if shared != nil {
 		shared.mu.Lock()
 		shared.feats[sc.originStr()] = features
@@ -932,6 +1046,12 @@ func (c *ctx) exec1(sc scenario, base *xmpp.StreamFeature, shared *sharedNeg) (r
 	defer cancel()
 	ok := common.WithTimeout(10*time.Second, func() {
 		res.panicked = common.Recover(func() {
+			if sc.wsEntry() && shared == nil {
+				// the entry point of the websocket package: it builds the negotiator and
+				// decides from the connection whether the session starts Secure
+				s, err = xmppws.NewSession(cctx, sc.origin(), c.conn(sc, w), features...)
+				return
+			}
 			s, err = xmpp.NewSession(cctx, sc.location(), sc.origin(), c.conn(sc, w), xmpp.SessionState(sc.state0), neg)
 		})
 	})
